@@ -597,16 +597,41 @@ class _TW:
 
 
 def tw_dedent_model(text):
-    # dedent: lines consisting solely of whitespace are normalised to "\n"; common leading whitespace removed.
-    lines = text.splitlines(True)
-    if len(lines) <= 1:
-        body = text
-        # single line: margin = its leading spaces/tabs (if it has non-ws content)
-        st = body.lstrip(" \t")
-        if len(st) == 0 or _real_bool(st == "\n"):
-            return st if len(st) else ""
-        return st
-    raise Unsupported("textwrap.dedent of multi-line symbolic text")
+    """textwrap.dedent on a symbolic string, following the stdlib algorithm line by line:
+    lines of only spaces/tabs become empty; margin = longest common leading [ \t]* of the lines that have other
+    content; the margin is removed from every line that starts with it.  (Lines are split at \n only, like re.MULTILINE.)"""
+    e = Engine.cur
+    blank = ranges_of(lambda ch: ch in " \t")
+
+    def is_blank(c):
+        return (chr(c) in " \t") if _real_isinstance(c, int) else e.decide(zin(c, blank))
+
+    lines = [SymStr.lift(l) for l in SymStr.lift(text).split("\n")]
+    out = []
+    for ln in lines:
+        if len(ln) and all(is_blank(c) for c in ln.cs):
+            out.append(SymStr([]))
+        else:
+            out.append(ln)
+    margin = None
+    for ln in out:
+        i = 0
+        while i < len(ln) and is_blank(ln.cs[i]):
+            i += 1
+        if i >= len(ln):
+            continue
+        indent = list(ln.cs[:i])
+        if margin is None:
+            margin = indent
+        else:
+            k = 0
+            while k < len(margin) and k < len(indent) and _real_bool(SymStr([margin[k]]) == SymStr([indent[k]])):
+                k += 1
+            margin = margin[:k]
+    if margin:
+        m = SymStr(margin)
+        out = [SymStr(ln.cs[len(margin):]) if ln.startswith(m) else ln for ln in out]
+    return join("\n", out)
 
 
 # ------------------------------------------------------------------ dispatch
@@ -1165,7 +1190,7 @@ _installed = None
 def install(roots=None):
     global _installed
     if _installed is None:
-        roots = roots or {"pyopenapi_gen": "/repo/src/pyopenapi_gen"}
+        roots = roots or {"pyopenapi_gen": os.path.join(os.environ.get("VERIF_REPO", "/repo"), "src", "pyopenapi_gen")}
         _installed = Finder(roots)
         sys.meta_path.insert(0, _installed)
         sys.dont_write_bytecode = True
